@@ -83,14 +83,19 @@ func c09CrossFileMembers(r *Rng) c09WS {
 	return c09WS{"cross-file-members-of-global", files}
 }
 
-func c09Collision(r *Rng) c09WS {
-	switch r.Intn(4) {
-	case 0, 1:
-		return c09GeneratedDup(r)
-	case 2:
-		return c09CrossFileMembers(r)
+// c09Collision: forced >= 0 selects one of the five hand-written collision kinds (so that every kind is present several
+// times in every run); otherwise the kind is drawn.
+func c09Collision(r *Rng, forced int) c09WS {
+	if forced < 0 {
+		switch r.Intn(4) {
+		case 0, 1:
+			return c09GeneratedDup(r)
+		case 2:
+			return c09CrossFileMembers(r)
+		}
+		forced = r.Intn(5)
 	}
-	switch r.Intn(5) {
+	switch forced % 5 {
 	case 0: // the same global function defined in 2-3 files with different arities; a caller elsewhere
 		n := r.Range(2, 3)
 		files := map[string]string{}
@@ -319,7 +324,11 @@ func runC09(c *Ctx) {
 		}
 	}
 	for i := 0; i < nColl; i++ {
-		wss = append(wss, c09Collision(root.Fork(uint64(100000+i))))
+		forced := -1
+		if i < 15 {
+			forced = i // three of each hand-written kind first
+		}
+		wss = append(wss, c09Collision(root.Fork(uint64(100000+i)), forced))
 	}
 	distinctPerKind := map[string]int{}
 	parallel(len(wss), 5, func(wi int) {
